@@ -319,6 +319,24 @@ def rule_n1(ctx, prog, rid, fns, control=False):
                 ok = fact_holds(facts, is_var(v), True) or fact_holds(
                     facts, lambda a: isinstance(strip(a), dict) and strip(a).get('k') == 'bin' and is_var(v)(strip(a)['l']), None)
                 if not ok:
+                    # pointer arithmetic after the test (`++p`, `p += n`) forgets the guard fact but not the test: is there a way
+                    # from the definition to the use on which no branch established "not null" and v was not given a new value?
+                    def establishes(b2, i2, s3, f=f, v=v):
+                        return not any((p_ is True and is_var(v)(a)) or
+                                       (isinstance(strip(a), dict) and strip(a).get('k') == 'bin' and strip(a)['op'] in ('==', '!=') and
+                                        is_var(v)(strip(a)['l']) and (strip(strip(a)['r']) or {}).get('k') in ('null', 'nullptr', 'int') and
+                                        p_ is (strip(a)['op'] == '!='))
+                                       for k_, p_, a in f.edge_facts(b2, i2, all=True))
+
+                    def new_value(x, v=v, d=d):
+                        if x is d:
+                            return False
+                        if x['k'] == 'decl' and x['n'] == v:
+                            return True
+                        return x['k'] == 'asg' and is_var(v)(x['l']) and x.get('op') == '=' and not mentions_var(x.get('r'), v)
+                    r_ = f.find_path(d, lambda x, u=u: x is u, is_blocker=new_value, edge_ok=establishes, sensitive=False)
+                    ok = r_ is None
+                if not ok:
                     # a redefinition between d and u makes this use belong to another definition
                     redef = [x for x in f.events() if x is not d and x['k'] in ('decl', 'asg') and
                              ((x['k'] == 'decl' and x['n'] == v) or (x['k'] == 'asg' and is_var(v)(x['l']))) and
